@@ -584,7 +584,7 @@ func runC17(ctx *ev.Ctx) {
 	}
 	ctx.Set("lookups_compared", total)
 	ctx.AddEvals(total, total)
-	ctx.Rule = "a data type registered by the application (datatype.Available + datatype.Decoder) after the process has decoded messages, declared by a dictionary loaded afterwards, is encoded and decoded; three child processes whose first use of dict.Default is Load / LoadFile of a dictionary that re-declares embedded AVPs / one lookup and then the Load (control): the definitions loaded last win in all three, which resolve identically; the generated-family and reload histories also through dict.NewParser(file1, file2, ...) in one call (five times each): argument order is load order; every history is also queried before its first load (an empty parser hands out placeholders), and one history starts with a dictionary that declares commands but no AVP; loading histories: a dictionary loaded again after another one redefined its AVPs and a file edited and reloaded from the same path (through Load and through LoadFile with temporary files); one dictionary declaring an AVP name under two codes, the later one with the lower code; one application id declared under two types by successive loads; dictionary files with several application elements (bare re-declarations of loaded applications before / between / after populated ones); the embedded dictionaries (extracted from diam/dict/default.go) in default order, every rotation and every adjacent swap; a generated family of four 3-AVP dictionaries that redefine each other's codes and names across application 0 / 4 / 16777251 and vendor variants, in all 24 orders, alone and on top of the base dictionary. After every Load - and after Loads that are rejected (a re-declared command, an undeclarable data type, truncated XML) following the first and the last dictionary of each history: FindAVPWithVendor by uint32 code, by int code and by name, FindAVP by int, FindCommand and App(id[,type]) for every application (loaded, children of the parent map, 0, an unrelated id) x every code / name present anywhere plus +-1 neighbours x vendor {declared, 0, another, wildcard}, plus every code looked up under two different vendor ids directly after one another, (the key space is that of ALL dictionaries of the history, so keys are also looked up while still undefined) are compared with the reference model, and everything resolvable before the Load must still be. Distinct by (history, query)."
+	ctx.Rule = "six undeclarable data type names x six places in a dictionary file (alone, first, middle, last, in the first / second of two applications): Load is rejected; a data type registered by the application (datatype.Available + datatype.Decoder) after the process has decoded messages, declared by a dictionary loaded afterwards, is encoded and decoded; three child processes whose first use of dict.Default is Load / LoadFile of a dictionary that re-declares embedded AVPs / one lookup and then the Load (control): the definitions loaded last win in all three, which resolve identically; the generated-family and reload histories also through dict.NewParser(file1, file2, ...) in one call (five times each): argument order is load order; every history is also queried before its first load (an empty parser hands out placeholders), and one history starts with a dictionary that declares commands but no AVP; loading histories: a dictionary loaded again after another one redefined its AVPs and a file edited and reloaded from the same path (through Load and through LoadFile with temporary files); one dictionary declaring an AVP name under two codes, the later one with the lower code; one application id declared under two types by successive loads; dictionary files with several application elements (bare re-declarations of loaded applications before / between / after populated ones); the embedded dictionaries (extracted from diam/dict/default.go) in default order, every rotation and every adjacent swap; a generated family of four 3-AVP dictionaries that redefine each other's codes and names across application 0 / 4 / 16777251 and vendor variants, in all 24 orders, alone and on top of the base dictionary. After every Load - and after Loads that are rejected (a re-declared command, an undeclarable data type, truncated XML) following the first and the last dictionary of each history: FindAVPWithVendor by uint32 code, by int code and by name, FindAVP by int, FindCommand and App(id[,type]) for every application (loaded, children of the parent map, 0, an unrelated id) x every code / name present anywhere plus +-1 neighbours x vendor {declared, 0, another, wildcard}, plus every code looked up under two different vendor ids directly after one another, (the key space is that of ALL dictionaries of the history, so keys are also looked up while still undefined) are compared with the reference model, and everything resolvable before the Load must still be. Distinct by (history, query)."
 	ctx.Assume = []string{"reference model refdict: application -> documented parents (16777251->4, 16777238->4, 4->1) -> base; exact vendor or wildcard; last load wins"}
 }
 
@@ -712,6 +712,30 @@ func c17Parent(ctx *ev.Ctx) {
 		ctx.Report("", "a dictionary declaring an unknown type name is accepted", "type NoSuchType", map[string]string{"type": "NoSuchType"})
 	}
 	ctx.Eval(ev.HS("type NoSuchType"))
+	// ... wherever the AVP stands in the file: alone, first, in the middle, last, in the first of
+	// two applications; and whatever the undeclarable name is
+	for _, tn := range []string{"NoSuchType", "Unsigned16", "UTF8string", "IPAddress", "Unknown", ""} {
+		good := func(i int) string {
+			return fmt.Sprintf(`<avp name="Good-%d" code="%d" must="M"><data type="Unsigned32"/></avp>`, i, 9900+i)
+		}
+		badAVP := fmt.Sprintf(`<avp name="Bogus" code="9999" must="M"><data type="%s"/></avp>`, tn)
+		for pi, body := range []string{
+			`<application id="0" name="B">` + badAVP + `</application>`,
+			`<application id="0" name="B">` + badAVP + good(1) + `</application>`,
+			`<application id="0" name="B">` + good(1) + badAVP + good(2) + `</application>`,
+			`<application id="0" name="B">` + good(1) + badAVP + `</application>`,
+			`<application id="0" name="B">` + badAVP + `</application><application id="7" name="C">` + good(1) + `</application>`,
+			`<application id="0" name="B">` + good(1) + `</application><application id="7" name="C">` + badAVP + good(2) + `</application>`,
+		} {
+			p, _ := dict.NewParser()
+			x := `<?xml version="1.0"?><diameter>` + body + `</diameter>`
+			ctx.Eval(ev.HS(fmt.Sprintf("type %q position %d", tn, pi)))
+			if err := safelyErr(func() error { return p.Load(bytes.NewReader([]byte(x))) }); err == nil {
+				ctx.Report("", "a dictionary declaring an unknown type name is accepted", fmt.Sprintf("type name %q, dictionary shape %d: %s", tn, pi, body), map[string]string{"type": tn, "shape": fmt.Sprint(pi)})
+				break
+			}
+		}
+	}
 	// 2. exported constants equal the codes of the embedded dictionaries
 	c17Constants(ctx)
 }
